@@ -68,6 +68,16 @@ def gen_cases(tier, seed):
                               bits=24, cen=rng.choice(cens)) for _ in range(nsh)]
         if d % 3 == 0:
             basis[0]["l"] = 3           # an f shell in every third case: Boys orders up to 6
+        if d % 6 == 3 and far is None:
+            # two high-l shells so far apart that the Gaussian product prefactor is 1e-10..1e-13: the polynomial factors of
+            # d and f functions keep phi_a phi_b / |r - R| above the tolerance
+            ea, eb = cg.exponent(rng, 1.0, 3.0, 24), cg.exponent(rng, 1.0, 3.0, 24)
+            mu = cg.val(ea) * cg.val(eb) / (cg.val(ea) + cg.val(eb))
+            dist = cg.dyadic((rng.uniform(23.1, 30.0) / mu) ** 0.5, 12)
+            basis = [{"l": 3, "center": [[0, 0]] * 3, "exps": [ea], "coeffs": [[cg.coeff(rng)]], "type": rng.choice(["cartesian", "spherical"])},
+                     {"l": rng.choice([2, 3]), "center": [[0, 0], dist, [0, 0]], "exps": [eb], "coeffs": [[cg.coeff(rng)]],
+                      "type": rng.choice(["cartesian", "spherical"])}]
+            cens = [basis[0]["center"], basis[1]["center"], [[0, 0], cg.dyadic(cg.val(dist) / 2, 12), [0, 0]]]
         nn = rng.randint(1, 5)
         nuclei = []
         for k in range(nn):
@@ -126,6 +136,8 @@ def gen_cases(tier, seed):
             # phi_a phi_b / |r - R|, judged on its own scale rather than against the sum over all pairs
             n0 = layout.size(basis[0])
             a_, b_ = rng.randrange(n0), rng.randrange(n0)
+            if d % 6 == 3 and far is None and len(basis) >= 2:
+                b_ = n0 + rng.randrange(layout.size(basis[1]))       # the far-apart pair: one function of each shell
             E = np.zeros((nb, nb))
             E[a_, b_] += 1.0
             E[b_, a_] += 1.0
